@@ -1,7 +1,7 @@
 (* Properties/C03.v — generated response types reject what the schema forbids.
    The layers are proved for all inputs; the composition over a selection tree is evaluated per case
    (RunResp.prop_c03): `partial`. *)
-From GC Require Import Base Rust Json TypeExpr TypeExprProofs Schema Query Enums Serde SerdeLemmas Conform RespProofs Compose Exact.
+From GC Require Import Base Rust Json TypeExpr TypeExprProofs Schema Query Enums Serde SerdeLemmas Conform RespProofs Compose Exact Codegen StrategyAll OptionAll.
 
 (* the emitted field type accepts EXACTLY the conforming values (so everything else is rejected) *)
 Theorem C03_field_type_exact : forall henv env n leaf F0,
@@ -123,3 +123,14 @@ Print Assumptions C03_missing_member.
 Print Assumptions C03_known_typename.
 Print Assumptions C03_unknown_typename.
 Print Assumptions C03_no_typename.
+
+(* ---------- the other-variant option, for ALL programs (OptionAll.v): the expansion of any selection
+   without `fragments_other_variant` is the expansion with it, minus the catch-all variants (`Unknown`,
+   serde `other`) — so with the option off there is no catch-all anywhere (an unknown `__typename` has no
+   variant to land in), and with it on nothing but that variant is added.  `cstrip` removes the variants
+   flagged `other` from a context and leaves everything else alone. *)
+Theorem C03_other_variant_only_adds_unknown : forall s frs o fuel c sels sid t p,
+  calc s frs (with_other o false) fuel (cstrip c) sels sid t p =
+  option_map cstrip (calc s frs (with_other o true) fuel c sels sid t p).
+Proof. exact other_variant_only_adds_unknown. Qed.
+Print Assumptions C03_other_variant_only_adds_unknown.
